@@ -42,6 +42,14 @@ type C08Plan struct {
 	// DeviceServiceInfo), "done-early:N" (sends Done after N service-info
 	// rounds although the owner has not signalled IsDone).
 	Deviant string `json:"deviant,omitempty"`
+	// HangUpFinal: the honest clients disconnect as soon as the server starts to
+	// answer the final request of each protocol (12, 22, 32, 70): the request
+	// context is cancelled while the handler finishes the session.
+	HangUpFinal bool `json:"hang_up_final,omitempty"`
+	// HangUpStmt: on a sqlite node the hang-up happens when the backend logs its
+	// n-th SQL statement of that request (swept over the plans, so that it falls
+	// before, inside and after the state changes of the final message).
+	HangUpStmt int `json:"hang_up_stmt,omitempty"`
 }
 
 // c08Deviant wraps the device's transport (which sees plaintext and the
@@ -156,6 +164,18 @@ func (p *c08) Plan(tier string, seed uint64, i int) any {
 		pl.Deviant = []string{"skip66", "done-early:0", "done-early:1", "done-early:2"}[j%4]
 		return pl
 	}
+	if i >= 2*sweep+40+48+2*len(c08DoneReads) && i < 2*sweep+40+48+2*len(c08DoneReads)+120 {
+		// sessions whose final request was answered to a client that had hung up;
+		// their tokens are presented again afterwards (sqlite honours contexts)
+		j := i - (2*sweep + 40 + 48 + 2*len(c08DoneReads))
+		pl.Sql, pl.HangUpFinal, pl.Devices = true, true, 2
+		pl.Seed = pl.Seed - pl.Seed%3 + uint64(j%3)
+		pl.HangUpStmt = 1 + j/3
+		for _, m := range []int{12, 22, 32, 70, 62, 66, 68} {
+			pl.Inject = append(pl.Inject, C08Inject{After: 36 + r.IntN(8), Pick: -m, Token: "invalidated"})
+		}
+		return pl
+	}
 	if i < 2*sweep+40+48+2*len(c08DoneReads) {
 		// the same deviations while the owner's state backend fails a read
 		j := i - 2*sweep - 40 - 48
@@ -253,6 +273,20 @@ func (p *c08) Exec(env *Env, plan any) {
 				o.Fault("store-error:" + faultMethod)
 			}
 		}
+	}
+	if pl.HangUpFinal {
+		s.Net.AddHook(func(ev *NetEvent) {
+			if ev.Phase == "req" && !ev.Adversary && (ev.MsgType == 12 || ev.MsgType == 22 || ev.MsgType == 32 || ev.MsgType == 70) {
+				// on a sqlite node: at the n-th SQL statement of the request;
+				// elsewhere: when the first byte of the answer is written
+				if n := s.Nodes[ev.To]; n != nil && n.Sql != nil {
+					ev.CancelAtStmt = pl.HangUpStmt
+				} else {
+					ev.HangUp = true
+				}
+				ev.Fault("client-hangs-up-on-final-message")
+			}
+		})
 	}
 	results := make([]string, pl.Devices)
 	for d := 0; d < pl.Devices; d++ {
